@@ -584,6 +584,18 @@ func (w *Worker) runPath(entry *ssa.Function, plan []Decision, synced int, hasPr
 			}
 			res.Status, res.Msg, res.Pos = pe.status, pe.msg, pe.pos
 			switch pe.status {
+			case "UNWIND", "UNSUPPORTED":
+				// the engine gives up on this path: keep one model per site so that the check can
+				// run the real code natively on an input of exactly this path
+				if key := "inconc:" + pe.status + ":" + pe.pos; !st.w.Opt.IsConcrete && !st.lenient && !st.w.covered[key] {
+					st.w.covered[key] = true
+					if r, m := st.model(); r == smt.Sat {
+						f := AssertFail{ID: "inconclusive-path", Kind: "INCONC", Msg: pe.status + ": " + pe.msg, Pos: pe.pos, Model: m}
+						f.Vector, f.Names = st.vector(m)
+						st.fails = append(st.fails, f)
+						res.Fails = st.fails
+					}
+				}
 			case "PANIC", "OOB":
 				if st.crashID != "" && st.crashCond != nil && st.crashCond.IsTrue() {
 					// the crash belongs to a recorded finding class
